@@ -40,6 +40,8 @@ namespace sim
             long long wake{0};
             bool timed_out{false};
             sem_t sem;
+            long long countdown{0};      // instrumented build: function entries until the next extra pre-emption point
+            bool in_hook{false};
             std::function<void()> body;
             std::thread th;
         };
@@ -393,6 +395,22 @@ namespace sim
     bool in_sim() { return on(); }
     int self_id() { return self ? self->id : -1; }
     void yield() { if (on()) { yielding = true; reschedule(); } }
+
+    // called on every function entry of the instrumented runtime translation units
+    void instr_point()
+    {
+        if (mode != THREADS || self == nullptr || cfg.instr_interval <= 0) return;
+        Th *me = self;
+        if (me->in_hook || me->st != RUN) return;
+        if (--me->countdown > 0) return;
+        me->in_hook = true;
+        const long long iv = draw([&]() -> long long { return 1 + static_cast<long long>(rng_sched.next() % static_cast<unsigned long long>(2 * cfg.instr_interval)); },
+                                  cfg.instr_interval);
+        me->countdown = iv > 0 ? iv : cfg.instr_interval;
+        ++st.instr_points;
+        reschedule();
+        me->in_hook = false;
+    }
     void sleep_us(long long d)
     {
         if (!on()) return;
@@ -417,6 +435,9 @@ namespace sim
     }
     void set_log(bool v) { log_on = v; }
 }  // namespace sim
+
+extern "C" __attribute__((no_instrument_function)) void __cyg_profile_func_enter(void *, void *) { sim::instr_point(); }
+extern "C" __attribute__((no_instrument_function)) void __cyg_profile_func_exit(void *, void *) {}
 
 namespace hv
 {
